@@ -116,27 +116,34 @@ func (it item) String() string {
 
 func items(tier string) []item {
 	var out []item
-	orders := [][]int{{fHTLC, fBL, fACC}, {fACC, fBL, fHTLC}, {fBL, fHTLC, fACC}}
-	spacings := []int{4}
-	revs := []bool{false}
-	if tier == "thorough" {
-		orders = [][]int{{fHTLC, fBL, fACC}, {fHTLC, fACC, fBL}, {fBL, fHTLC, fACC}, {fBL, fACC, fHTLC}, {fACC, fHTLC, fBL}, {fACC, fBL, fHTLC}}
-		spacings = []int{1, 2, 4}
-		revs = []bool{false, true}
-	}
-	// a single spork on the chain (the minimal histories), then all three in every order
-	for _, f := range []int{fHTLC, fBL, fACC} {
-		for _, mode := range []string{"live", "lag"} {
-			out = append(out, item{Kind: "gate", Order: []int{f}, Spacing: 4, Mode: mode})
+	all := [][]int{{fHTLC, fBL, fACC}, {fHTLC, fACC, fBL}, {fBL, fHTLC, fACC}, {fBL, fACC, fHTLC}, {fACC, fHTLC, fBL}, {fACC, fBL, fHTLC}}
+	modes := []string{"live", "lag"}
+	gate := func(o []int, rev bool, sp int) {
+		for _, mode := range modes {
+			out = append(out, item{Kind: "gate", Order: o, CreateRev: rev, Spacing: sp, Mode: mode})
 		}
 	}
-	for _, o := range orders {
-		for _, rev := range revs {
-			for _, sp := range spacings {
-				for _, mode := range []string{"live", "lag"} {
-					out = append(out, item{Kind: "gate", Order: o, CreateRev: rev, Spacing: sp, Mode: mode})
+	// a single spork on the chain (the minimal histories)
+	for _, f := range []int{fHTLC, fBL, fACC} {
+		gate([]int{f}, false, 4)
+	}
+	if tier == "thorough" {
+		// all 6 activation orders x creation order (same as / reverse of the activation order) x distance between two
+		// activations 1..5 momentums (1..3: the windows [E-2,E+1] of different sporks overlap; 4, 5: they do not)
+		for _, o := range all {
+			for _, rev := range []bool{false, true} {
+				for sp := 1; sp <= 5; sp++ {
+					gate(o, rev, sp)
 				}
 			}
+		}
+	} else {
+		// all 6 activation orders with disjoint windows, 3 of them also with consecutive activation momentums
+		for _, o := range all {
+			gate(o, false, 4)
+		}
+		for _, o := range [][]int{all[0], all[3], all[5]} {
+			gate(o, true, 1)
 		}
 	}
 	for f := 0; f < 3; f++ {
@@ -238,7 +245,7 @@ func init() {
 			ev.Coverage["transitions"] = m.Counters["transitions"]
 			ev.Coverage["traces_validated_against_impl"] = m.Counters["executions"]
 			ev.Coverage["explanation"] = "states = (execution configuration, chain height) pairs at which the oracle was evaluated; transitions = operations executed on real nodes (submitted/forged blocks, momentums produced, deliveries to followers, child-process steps); traces = executions (one per configuration)"
-			for _, set := range []string{"cumulative_table_manifestations", "receive_classes", "frontier_after_halt", "halt_cases"} {
+			for _, set := range []string{"cumulative_table_manifestations", "receive_classes", "frontier_after_halt", "halt_cases", "sweep_methods_seen_available", "sweep_methods_seen_unavailable"} {
 				var l []string
 				for e := range m.Sets[set] {
 					l = append(l, e)
@@ -259,7 +266,7 @@ func init() {
 			// vacuity guards
 			need := []string{
 				"probes_accepted", "probes_refused", "probes_refused_foreign_path", "boundary_refused_at_E-1", "boundary_accepted_at_E",
-				"receives_executed", "lag_probes_below_E_with_frontier_past_E", "follower_digest_comparisons",
+				"receives_executed", "lag_probes_below_E_with_frontier_past_E", "follower_digest_comparisons", "sweep_available", "sweep_unavailable", "sweep_controls",
 				"admin_refused_at_send", "admin_no_effect_at_receive", "admin_effective", "community_created_inside_window", "community_refused_outside_window",
 				"halt_exit2_at_E", "halt_init_exit2", "halt_control_survived", "halt_init_before_E_opened",
 			}
